@@ -26,6 +26,10 @@
 (*   D-C38-expires-reserialised      the Expires header is parsed and      *)
 (*                                   re-serialised (the raw value is not   *)
 (*                                   preserved)                            *)
+(*   D-C38-complete-md5-not-forwarded  CompleteMultipartUpload forwards    *)
+(*                                   the x-amz-checksum-* values but not   *)
+(*                                   the declared whole-object MD5: a      *)
+(*                                   wrong digest is not refused           *)
 (*   D-C38-put-no-version-id         PutObjectResult carries no VersionID  *)
 (*   D-C38-errors-not-translated     most S3 error codes are returned as   *)
 (*                                   SDK errors, not as storage.Err*       *)
@@ -45,7 +49,8 @@ EXTENDS PithosMC
 CTags == {"D-C38-put-drops-tags", "D-C38-copy-drops-tagging", "D-C38-complete-drops-conditions",
           "D-C38-append-not-implemented", "D-C38-transition-via-copy", "D-C38-expires-reserialised",
           "D-C38-put-no-version-id", "D-C38-errors-not-translated",
-          "D-C38-notfound-as-nosuchbucket", "D-C38-get-heads-current", "D-C38-listuploads-nil-deref"}
+          "D-C38-notfound-as-nosuchbucket", "D-C38-get-heads-current", "D-C38-listuploads-nil-deref",
+          "D-C38-complete-md5-not-forwarded"}
 
 \* the S3 error code the pithos server sends for an error kind of the model
 SrvCode(kind) ==
@@ -78,7 +83,9 @@ CErr(kind) == [err |-> kind, tr |-> TRUE, vid |-> -1, dm |-> FALSE, uid |-> -1]
 FwdC(c, dev) ==
   CASE c.op = "PutObject"      -> [c EXCEPT !.tags = IF "D-C38-put-drops-tags" \in dev THEN None ELSE @]
     [] c.op = "CopyObject"     -> [c EXCEPT !.tdir = IF "D-C38-copy-drops-tagging" \in dev THEN "COPY" ELSE @]
-    [] c.op = "CompleteUpload" -> [c EXCEPT !.cond = IF "D-C38-complete-drops-conditions" \in dev THEN "none" ELSE @]
+    [] c.op = "CompleteUpload" -> [c EXCEPT !.cond = IF "D-C38-complete-drops-conditions" \in dev THEN "none" ELSE @,
+                                            \* the declared whole-object MD5 (ChecksumInput.ETag) is not sent
+                                            !.cksum = IF "D-C38-complete-md5-not-forwarded" \in dev THEN "none" ELSE @]
     [] OTHER -> c
 
 \* the raw Expires value (only metadata set 1 carries one) does not survive parse + re-serialise
